@@ -200,10 +200,36 @@ def _probe_call(func):
     return t, code
 
 
+_KEY_ATTRS = ("co_filename", "co_name", "co_qualname", "co_firstlineno")
+
+
+def _key_spec(k, code):
+    """How the memo's key `k` is made from `code`: None (the code object itself) or, for a tuple key, one entry per element:
+    'code' or the name of the code attribute it equals.  False: not a key made from this code object."""
+    if k is code:
+        return None
+    if isinstance(k, tuple) and any(x is code for x in k):
+        spec = []
+        for x in k:
+            if x is code:
+                spec.append("code")
+                continue
+            names = [a for a in _KEY_ATTRS if getattr(code, a, _KEY_ATTRS) == x and type(getattr(code, a)) is type(x)]
+            if not names:
+                return False
+            spec.append(names[0])
+        return tuple(spec)
+    return False
+
+
+def _make_key(spec, code):
+    return code if spec is None else tuple(code if a == "code" else getattr(code, a) for a in spec)
+
+
 def function_cache_attr():
     """Where the CallTracer memoises the function resolved for a code object, DISCOVERED on a real frame: a dict attribute
-    that, after a real call event, holds the real code object as a key and, as its value, the function itself or a tuple
-    containing it.
+    that, after a real call event, holds a key made from the real code object (the code object itself, or a tuple of it and
+    some of its attributes, e.g. (co_filename, code)) and, as its value, the function itself or a tuple containing it.
 
     The model frames of several harnesses carry a code VIEW (one symbolic opcode) that function lookup cannot resolve, so the
     resolved function has to be planted where the tracer memoises lookups.  Nothing else of the tracer's internal
@@ -217,14 +243,18 @@ def function_cache_attr():
 
             t, code = _probe_call(F.mod_func)
             for name, v in vars(t).items():
-                if not isinstance(v, dict) or not any(k is code for k in v):
+                if not isinstance(v, dict):
                     continue
-                val = v[code]
-                if val is F.mod_func:
-                    _CACHE_ATTR = (name, None)
+                for k, val in v.items():
+                    spec = _key_spec(k, code)
+                    if spec is False:
+                        continue
+                    if val is F.mod_func:
+                        _CACHE_ATTR = (name, None, spec)
+                    elif isinstance(val, tuple) and any(x is F.mod_func for x in val):
+                        _CACHE_ATTR = (name, [x is F.mod_func for x in val].index(True), spec)
                     break
-                if isinstance(val, tuple) and any(x is F.mod_func for x in val):
-                    _CACHE_ATTR = (name, [x is F.mod_func for x in val].index(True))
+                if _CACHE_ATTR:
                     break
         except Exception:  # noqa: BLE001
             _CACHE_ATTR = None
@@ -238,21 +268,21 @@ def representation_ok():
 def seed_function(tracer, code, func, like=None):
     """Plant `func` (None: unresolvable) as the function resolved for the (model) code object `code`, a view of the code of
     `like` (default: `func` itself)."""
-    name, idx = function_cache_attr()
+    name, idx, spec = function_cache_attr()
     if idx is None:
-        getattr(tracer, name)[code] = func
+        getattr(tracer, name)[_make_key(spec, code)] = func
         return
     base = like if like is not None else func
     if base not in _TEMPLATES:
         t, real = _probe_call(base)
-        _TEMPLATES[base] = getattr(t, name)[real]
+        _TEMPLATES[base] = getattr(t, name)[_make_key(spec, real)]
     tmpl = _TEMPLATES[base]
-    getattr(tracer, name)[code] = tuple(func if i == idx else x for i, x in enumerate(tmpl))
+    getattr(tracer, name)[_make_key(spec, code)] = tuple(func if i == idx else x for i, x in enumerate(tmpl))
 
 
 def forget_function(tracer, code):
-    name, _idx = function_cache_attr()
-    getattr(tracer, name).pop(code, None)
+    name, _idx, spec = function_cache_attr()
+    getattr(tracer, name).pop(_make_key(spec, code), None)
 
 
 def in_flight(tracer, frame):
